@@ -37,7 +37,7 @@ type histStep struct {
 	File     string   `json:"file"`     // the file branch.file points to (a name, or directory/name)
 	Content  int      `json:"content"`  // index into Specs: what that file holds at this step
 	PK       []string `json:"pk"`       // the key in force
-	Via      string   `json:"via"`      // "config": branch.primaryKey; "flag": -p on this command only
+	Via      string   `json:"via"`      // "config": branch.primaryKey; "flag": -p on this command only; "setflags": this command's --set-file --set-primary-key [-p] writes the configuration
 	All      bool     `json:"all"`      // `wrgl commit --all MSG`
 	Older    bool     `json:"older"`    // a file written for the first time gets a modification time in the past (an older export)
 	OffsetMs int      `json:"offsetMs"` // a file edited in place gets the cached temporary commit's time plus this
@@ -54,6 +54,9 @@ type histInput struct {
 	Specs  []*TableSpec `json:"specs"`
 	Steps  []histStep   `json:"steps"`
 	Tables []histTable  `json:"tables"` // derived from Specs and Steps: the logical table of every step
+	// Relative: branch.file holds a bare file name and every command runs in the directory of the
+	// step's file, so that one configured name means different files in different working directories
+	Relative bool `json:"relative,omitempty"`
 }
 
 type histObs struct {
@@ -184,10 +187,28 @@ func runCommitHistory(in *histInput, withExport, withRef bool) Res {
 		past := time.Now().Add(-2 * time.Hour)
 		obs := []histObs{}
 		headNames := map[string]string{}
+		if in.Relative {
+			if orig, err := os.Getwd(); err == nil {
+				defer os.Chdir(orig)
+			}
+		}
+		cfgName := func(f string) string {
+			if in.Relative {
+				return filepath.Base(f)
+			}
+			return f
+		}
 		for i, st := range in.Steps {
 			spec := in.Specs[st.Content]
 			fp := filepath.Join(root, "data", st.File)
 			os.MkdirAll(filepath.Dir(fp), 0755)
+			arg := fp // the file as typed on the command line and as kept in branch.file
+			if in.Relative {
+				if err := os.Chdir(filepath.Dir(fp)); err != nil {
+					return fail(i, "chdir", "", err)
+				}
+				arg = filepath.Base(fp)
+			}
 			if v, ok := onDisk[st.File]; !ok {
 				// a file that was not there before: a fresh one, or an export made some time ago
 				if err := os.WriteFile(fp, spec.CSV(0), 0644); err != nil {
@@ -215,7 +236,7 @@ func runCommitHistory(in *histInput, withExport, withRef bool) Res {
 			}
 			var out string
 			if i == 0 {
-				args := []string{"commit", "main", fp, "step 0", "-n", "1", "--set-file", "--set-primary-key"}
+				args := []string{"commit", "main", arg, "step 0", "-n", "1", "--set-file", "--set-primary-key"}
 				if len(st.PK) > 0 {
 					args = append(args, "-p", strings.Join(st.PK, ","))
 				}
@@ -223,13 +244,13 @@ func runCommitHistory(in *histInput, withExport, withRef bool) Res {
 				if err != nil {
 					return fail(i, "commit", out, err)
 				}
-				cfgFile, cfgPK = st.File, st.PK
+				cfgFile, cfgPK = cfgName(st.File), st.PK
 			} else {
-				if cfgFile != st.File {
-					if out, err := cli(dir, "config", "set", "branch.main.file", fp); err != nil {
+				if cfgFile != cfgName(st.File) {
+					if out, err := cli(dir, "config", "set", "branch.main.file", arg); err != nil {
 						return fail(i, "set-file", out, err)
 					}
-					cfgFile = st.File
+					cfgFile = cfgName(st.File)
 				}
 				// worker counts 2, 3, 4, 5, 1, ... by the step (step 0 runs with 1)
 				nw := fmt.Sprint(1 + i%5)
@@ -237,7 +258,15 @@ func runCommitHistory(in *histInput, withExport, withRef bool) Res {
 				if st.All {
 					args = []string{"commit", "--all", fmt.Sprintf("step %d", i), "-n", nw}
 				}
-				if st.Via == "flag" && len(st.PK) > 0 && !st.All {
+				if st.Via == "setflags" && !st.All {
+					// the key (possibly none) is made the branch's configured key by the commit command itself:
+					// `wrgl commit main FILE MSG [-p PK] --set-file --set-primary-key`
+					args = []string{"commit", "main", arg, fmt.Sprintf("step %d", i), "-n", nw, "--set-file", "--set-primary-key"}
+					if len(st.PK) > 0 {
+						args = append(args, "-p", strings.Join(st.PK, ","))
+					}
+					cfgPK, cfgFile = st.PK, cfgName(st.File)
+				} else if st.Via == "flag" && len(st.PK) > 0 && !st.All {
 					args = append(args, "-p", strings.Join(st.PK, ","))
 				} else if !strsEqual(cfgPK, st.PK) {
 					var out string
@@ -475,7 +504,9 @@ func genHistory(r *rand.Rand, h int, thorough bool) (*histInput, []string) {
 		n = 250 + r.Intn(20) // around the block edge
 	}
 	next := n + 10
-	in := &histInput{}
+	// one history in three keeps a bare file name in branch.file and runs every command in the directory
+	// of the step's file: the same configured name then means another file in another working directory
+	in := &histInput{Relative: h%3 == 2}
 	t0 := genHistTable(r, nCols, nKey, n)
 	in.Specs = append(in.Specs, t0)
 	keyCols := t0.Columns[:nKey]
@@ -506,6 +537,9 @@ func genHistory(r *rand.Rand, h int, thorough bool) (*histInput, []string) {
 	cfgPK := pk
 	nFiles := 1
 	tags := []string{"cli", "history"}
+	if in.Relative {
+		tags = append(tags, "relative-file")
+	}
 	tag := func(s string) {
 		for _, t := range tags {
 			if t == s {
@@ -580,6 +614,11 @@ func genHistory(r *rand.Rand, h int, thorough bool) (*histInput, []string) {
 			cfgPK = histNewPK(r, cfgPK, keyCols, flavour)
 			st.PK = cfgPK
 			st.Kind = "set-pk"
+			if r.Intn(2) == 0 {
+				// through the commit command's own --set-primary-key (with -p, or without it: the key is dropped)
+				st.Via = "setflags"
+				st.Kind = "set-pk-by-commit"
+			}
 		case 4: // another key for this command only
 			st.PK = histNewPK(r, cur.PK, keyCols, flavour)
 			if len(st.PK) == 0 {
